@@ -42,7 +42,10 @@ def configs(tier, seed):
         for P in (3, 5):
             for thr in ((0.2, 0.0) if tier == "thorough" or s == (1, 1, 2, 2) else (0.2,)):
                 out.append(dict(kind="refine", shape=list(s), patch=P, thr=thr))
-    for P in (3, 5):
+    # even patch sizes: the crop is centred on the cell with half-pixel sampling and the regression grid must be centred likewise
+    for s, P in ([((1, 1, 2, 2), 4), ((1, 1, 3, 3), 2)] + ([((1, 2, 1, 3), 4), ((1, 1, 3, 3), 6)] if tier == "thorough" else [])):
+        out.append(dict(kind="refine", shape=list(s), patch=P, thr=0.2))
+    for P in (3, 5, 4):
         for G in ((3, 5) if tier == "quick" else (3, 5, 7)):
             out.append(dict(kind="bump", patch=P, G=G))
     out.append(dict(kind="validate", seed=seed))
@@ -194,19 +197,36 @@ def _run_refine(cfg):
     ex = Explorer([], timeout_ms=60000)
     extract = _extract(S, C, H, W, False)
 
+    crop_model = pf.crop_and_resize  # the validated crop model (stubs.crop_and_resize_model)
+    hp = float(P - 1) / 2
+
     def path():
         with T.SymMode():
             cms = T.sym_float_tensor("c", (S, C, H, W))
             rough, rvals = pf.find_global_peaks_rough(cms, threshold=thr)
             pts, vals = pf.find_global_peaks(cms, threshold=thr, refinement="integral", integral_patch_size=P)
-        return cms, rough, rvals, pts, vals
+            # SPECIFICATION patches, independent of what the code cut: the P x P samples of channel (s,c)'s OWN map on the unit grid centred on
+            # its rough peak (cells for odd P, half-pixel bilinear samples for even P), through the crop model
+            spec = {}
+            for s_ in range(S):
+                for c_ in range(C):
+                    try:
+                        x_, y_ = rough[s_, c_, 0], rough[s_, c_, 1]
+                        box = torch.stack([torch.stack([x_ - hp, y_ - hp]), torch.stack([x_ + hp, y_ - hp]), torch.stack([x_ + hp, y_ + hp]), torch.stack([x_ - hp, y_ + hp])]).unsqueeze(0)
+                        spec[(s_, c_)] = crop_model(cms[s_:s_ + 1, c_:c_ + 1], box, (P, P))
+                    except xf.EngineGap:
+                        raise
+                    except Exception:  # noqa  (a below-threshold channel has a NaN peak: no patch)
+                        spec[(s_, c_)] = None
+        return cms, rough, rvals, pts, vals, spec
 
     half = Fraction(P - 1, 2)
     r = (P - 1) // 2
-    for cms, rough, rvals, pts, vals in ex.run(path):
+    for cms, rough, rvals, pts, vals, spec in ex.run(path):
         rep.paths += 1
         rep.nontrivial_paths += 1
         cv = cms.values()
+
         ro, pv, vv, rv = rough.values(), pts.values(), vals.values(), rvals.values()
         ok_shape = tuple(pts.shape) == (S, C, 2)
         rep.record("O0-shapes", "unsat" if ok_shape else "sat")
@@ -222,17 +242,17 @@ def _run_refine(cfg):
                 # invalid channel stays NaN; valid channel stays finite-or-unbounded but aligned with ITS OWN rough peak
                 discharge(ex, rep, "O6-invalid-channel-stays-nan", xf.Implies(rx.nan, And(x.nan, y.nan)),
                           on_sat=lambda m, env: ("O6-invalid", "a below-threshold channel got coordinates after refinement", extract(m, env)))
-                # patch cells relative to the (symbolic) rough peak: value at offset (di,dj), 0 outside the map
-                def at(di, dj):
-                    acc = Fraction(0)
-                    for i in range(H):
-                        for j in range(W):
-                            ii, jj = i - di, j - dj  # peak position that puts cell (i,j) at offset (di,dj)
-                            if 0 <= ii < H and 0 <= jj < W:
-                                acc = RIte(And(rcmp("==", ry.v, ii), rcmp("==", rx.v, jj)), cv[(k * H + i) * W + j].v, acc)
-                    return acc
-                offs = [(di, dj) for di in range(-r, r + 1) for dj in range(-r, r + 1)]
-                patch = {o: at(*o) for o in offs}
+                # the P x P samples this channel's refinement SHOULD integrate (validity is decided on a path)
+                is_valid = ex.query([xf.zb(rx.nan)]).status == "unsat"
+                if not is_valid:
+                    continue
+                sp = spec.get((s, c))
+                if sp is None or sp.numel() != P * P:
+                    rep.inconclusive_item("O7", "specification patch not available for a valid channel")
+                    continue
+                spv = sp.values() if isinstance(sp, T.SymTensor) else [XF.of(v) for v in sp.reshape(-1).tolist()]
+                offs = [(u, v) for u in range(P) for v in range(P)]
+                patch = {(u, v): spv[u * P + v].v for (u, v) in offs}
                 tot = Fraction(0)
                 for o in offs:
                     tot = xf.radd(tot, patch[o])
@@ -245,11 +265,11 @@ def _run_refine(cfg):
                 discharge(ex, rep, "O7b-offset-within-half-patch[any patch]", xf.Implies(valid, inb),
                           on_sat=lambda m, env: (_sig_o7b(env, patch, offs), "refined global peak moves more than half a patch (or is NaN/inf)", extract(m, env)))
                 # symmetric patch about the peak => unmoved
-                sym = And(*[rcmp("==", patch[(di, dj)], patch[(-di, -dj)]) for (di, dj) in offs if (di, dj) > (0, 0)])
-                sym = And(sym, *[rcmp("==", patch[(di, dj)], patch[(di, -dj)]) for (di, dj) in offs if dj > 0])
+                sym = And(*[rcmp("==", patch[(u, v)], patch[(P - 1 - u, P - 1 - v)]) for (u, v) in offs if (u, v) < (P - 1 - u, P - 1 - v)])
+                sym = And(sym, *[rcmp("==", patch[(u, v)], patch[(u, P - 1 - v)]) for (u, v) in offs if v < P - 1 - v])
                 unmoved = And(x.fin(), y.fin(), rcmp("==", x.v, rx.v), rcmp("==", y.v, ry.v))
                 discharge(ex, rep, "O8-symmetric-bump-is-unmoved", xf.Implies(And(valid, sym, rcmp(">", tot, 0)), unmoved),
-                          on_sat=lambda m, env: ("O8-symmetric", "a patch symmetric about the peak cell is moved by refinement", extract(m, env)))
+                          on_sat=lambda m, env: ("O8-symmetric", "a refinement patch symmetric about its centre is moved by refinement", extract(m, env)))
         rep.sample({"path_condition": ex.path_summary(2), "shape": [S, C, H, W], "patch": P})
     rep.witness("tied-maximum-model", True)
     rep.witness("below-threshold-model", True)
